@@ -22,7 +22,7 @@ import (
 func init() {
 	Registry["C12"] = &Check{
 		Scenarios: c12Scenarios,
-		Rule: "peer scripts: MaxRetransmits R in {0,1,2} (thorough 0..3); for the k-th CER received the peer does one of {nothing, success CEA, failing CEA 5010, CEA without Origin-Host, CEA without Result-Code, success CEA without any application, success CEA with an unsupported application, disconnect} after a delay in {0, 1/2, 1, 3/2} RetransmitInterval on the virtual clock; quick: every script with one answering CER index, thorough: also every script with two answering indexes; after a success every set of extras from {duplicate success CEA, late failing CEA, RAA, both a CEA and an RAA}. Every schedule of client goroutines, reader, timers and peer steps up to preemption bound 2 (quick) / unbounded (thorough); timers that are due may fire at any later step, so every tie ordering is explored.",
+		Rule: "peer scripts: MaxRetransmits R in {0,1,2} (thorough 0..3); for the k-th CER received the peer does one of {nothing, success CEA, failing CEA 5010, CEA without Origin-Host, CEA without Result-Code, success CEA without any application, success CEA with an unsupported application, success CEA whose only application information is a Vendor-Specific-Application-Id group {Vendor-Id, unsupported id} / {Vendor-Id} / {Vendor-Id, supported id}, disconnect} after a delay in {0, 1/2, 1, 3/2} RetransmitInterval on the virtual clock; quick: every script with one answering CER index, thorough: also every script with two answering indexes; after a success every set of extras from {duplicate success CEA, late failing CEA, RAA, both a CEA and an RAA}. Every schedule of client goroutines, reader, timers and peer steps up to preemption bound 2 (quick) / unbounded (thorough); timers that are due may fire at any later step, so every tie ordering is explored.",
 		Assume: []string{"virtual time: writes and computation take no time; lateness exists only where the peer script introduces it", "data-race freedom between visible operations (audited separately with -race)"},
 		QuickBudget: 150, ThoroughBudget: 2400,
 	}
@@ -61,7 +61,7 @@ func c12Scenarios(tier string) []*Scenario {
 		bound = vs.Unbounded
 		maxR = 3
 	}
-	kinds := []string{"success", "fail", "nohost", "norc", "noapp", "badapp", "disconnect"}
+	kinds := []string{"success", "fail", "nohost", "norc", "noapp", "badapp", "vsabad", "vsavendor", "vsagood", "disconnect"}
 	extraSets := [][]string{nil, {"dup"}, {"latefail"}, {"raa"}, {"dup", "raa"}, {"latefail", "raa"}, {"raa", "dup", "raa"}}
 	var out []*Scenario
 	add := func(R int, script []c12Act, extras []string) {
@@ -78,6 +78,11 @@ func c12Scenarios(tier string) []*Scenario {
 				for d := 0; d <= 3; d++ {
 					sc := append([]c12Act{}, silent...)
 					sc[k] = c12Act{Kind: kind, Delay: d}
+					if kind == "vsabad" || kind == "vsavendor" || kind == "vsagood" {
+						if d != 0 || k != 0 {
+							continue // application-shape variants: first CER, no delay
+						}
+					}
 					if kind == "success" {
 						for _, ex := range extraSets {
 							add(R, sc, ex)
@@ -205,6 +210,28 @@ func c12Scenario(R int, script []c12Act, extras []string, bound int) *Scenario {
 						}
 						nodes = append(nodes, u32avp(258, 999))
 						deliver("badapp", refcodec.EncodeMessage(h, nodes))
+					case "vsabad", "vsavendor", "vsagood":
+						// success CEA whose only application information is a Vendor-Specific-Application-Id group
+						b := peerAnswer(req, 2001, false)
+						h, _ := refcodec.DecodeHeader(b)
+						recs, _, _ := refcodec.Frame(b[20:], nil)
+						var nodes []refcodec.Node
+						for _, r := range recs {
+							nodes = append(nodes, refcodec.Node{Code: r.Code, Flags: r.Flags, Vendor: r.Vendor, Payload: r.Payload})
+						}
+						g := refcodec.Node{Code: 260, Flags: 0x40, Group: true, Children: []refcodec.Node{u32avp(266, 10415)}}
+						if act.Kind == "vsabad" {
+							g.Children = append(g.Children, u32avp(258, 999))
+						}
+						if act.Kind == "vsagood" {
+							g.Children = append(g.Children, u32avp(258, 4))
+						}
+						nodes = append(nodes, g)
+						kind := act.Kind
+						if kind == "vsagood" {
+							kind = "success"
+						}
+						deliver(kind, refcodec.EncodeMessage(h, nodes))
 					case "disconnect":
 						st.delivered = append(st.delivered, "disconnect")
 						st.deliveredAt = append(st.deliveredAt, vs.Now())
@@ -309,7 +336,7 @@ func c12Scenario(R int, script []c12Act, extras []string, bound int) *Scenario {
 		return fmt.Sprintf("conn=%v err=%v cers=%d raa=%d/%d closed=%v", st.retConn, st.retErr, len(st.cers), st.raaHandled, st.raaSent, st.conn.Closed)
 	}
 	return &Scenario{Name: c12Name(R, script, extras), Body: body, Check: check, Outcome: outcome, Bound: bound,
-		Horizon: time.Duration(R+4) * c12Interval}
+		Horizon: time.Duration(R+4) * c12Interval, Weight: R*3 + len(extras)*2}
 }
 
 func firstAt(st *c12State, kind string) time.Duration {
